@@ -1,0 +1,76 @@
+// Copyright 2023 Versity Software
+// This file is licensed under the Apache License, Version 2.0
+// (the "License"); you may not use this file except in compliance
+// with the License.  You may obtain a copy of the License at
+//
+//   http://www.apache.org/licenses/LICENSE-2.0
+//
+// Unless required by applicable law or agreed to in writing,
+// software distributed under the License is distributed on an
+// "AS IS" BASIS, WITHOUT WARRANTIES OR CONDITIONS OF ANY
+// KIND, either express or implied.  See the License for the
+// specific language governing permissions and limitations
+// under the License.
+
+package s3proxy
+
+import (
+	"errors"
+	"io"
+)
+
+// holdbackReader hands on the data of an upload body but keeps the last
+// byte back until the underlying reader has ended with io.EOF.
+//
+// The body readers of the front end verify the request signature, the
+// chunk signatures and Content-MD5 when the body ends, and report the
+// verdict as the error of that last Read. The HTTP transport of the SDK
+// has by then written all Content-Length bytes to the endpoint, which
+// commits the object although this gateway goes on to refuse the request.
+// With the last byte withheld the endpoint never sees a complete body of
+// a request that fails its verification.
+type holdbackReader struct {
+	r       io.Reader
+	pending []byte
+	scratch []byte
+	eof     bool
+	err     error
+}
+
+func newHoldbackReader(r io.Reader) *holdbackReader {
+	return &holdbackReader{r: r, scratch: make([]byte, 32*1024)}
+}
+
+func (h *holdbackReader) Read(p []byte) (int, error) {
+	if len(p) == 0 {
+		return 0, nil
+	}
+	for !h.eof && h.err == nil && len(h.pending) < 2 {
+		n, err := h.r.Read(h.scratch)
+		h.pending = append(h.pending, h.scratch[:n]...)
+		if errors.Is(err, io.EOF) {
+			h.eof = true
+		} else if err != nil {
+			h.err = err
+		}
+	}
+	if h.err != nil {
+		return 0, h.err
+	}
+	avail := len(h.pending)
+	if !h.eof {
+		avail--
+	}
+	n := copy(p, h.pending[:avail])
+	h.pending = h.pending[n:]
+	if h.eof && len(h.pending) == 0 {
+		return n, io.EOF
+	}
+	return n, nil
+}
+
+// verdict is the error the body ended with, if it is one of the
+// gateway's own API errors (the SDK reports it as a failed send)
+func (h *holdbackReader) verdict() error {
+	return h.err
+}
